@@ -20,6 +20,8 @@ func main() {
 		runFilter()
 	case "quant":
 		runQuant()
+	case "dist":
+		runDist()
 	default:
 		fmt.Fprintln(os.Stderr, "unknown engine")
 		os.Exit(2)
